@@ -170,7 +170,7 @@ func (c *Client) StatBlobs(ctx context.Context, blobs []blob.Ref, fn func(blob.S
 	if len(needStat) == 0 {
 		return nil
 	}
-	return blobserver.StatBlobsParallelHelper(ctx, blobs, fn, c.httpGate, func(br blob.Ref) (workerSB blob.SizedRef, err error) {
+	return blobserver.StatBlobsParallelHelper(ctx, needStat, fn, c.httpGate, func(br blob.Ref) (workerSB blob.SizedRef, err error) {
 		err = c.doStat(ctx, []blob.Ref{br}, 0, false, func(sb blob.SizedRef) error {
 			workerSB = sb
 			c.haveCache.NoteBlobExists(sb.Ref, sb.Size)
